@@ -559,8 +559,12 @@ def execute(scn):
       pre = f"state{(which + w) % 3}/world{w}:"
       ncon_seen = max(ncon_seen, r.ncon)
       # energy: MuJoCo leaves energy computed by sensors in mjd.energy only while the flag/sensors say so
-      c.close(pre + "energy_potential", en_all[w][0], r.energy[0], "f32dyn", vkey=f"energy:potential:flag={scn['energy']}:esensor={int('E_POTENTIAL' in names)}")
-      c.close(pre + "energy_kinetic", en_all[w][1], r.energy[1], "f32dyn", vkey=f"energy:kinetic:flag={scn['energy']}:esensor={int('E_KINETIC' in names)}")
+      # Data.energy is specified only while the ENERGY flag is on; with the flag off MuJoCo's content is an evaluation-order
+      # artefact (e.g. [E_pot, stale] with only an e_potential sensor, [0, 0] with only e_kinetic) and the property
+      # covers it through the energy *sensors*, which are compared above
+      if scn["energy"]:
+        c.close(pre + "energy_potential", en_all[w][0], r.energy[0], "f32dyn", vkey=f"energy:potential:flag={scn['energy']}:esensor={int('E_POTENTIAL' in names)}")
+        c.close(pre + "energy_kinetic", en_all[w][1], r.energy[1], "f32dyn", vkey=f"energy:kinetic:flag={scn['energy']}:esensor={int('E_KINETIC' in names)}")
       fscale = 1.0 + max(float(np.max(np.abs(r.efc_force))) if r.nefc else 0.0, float(np.max(np.abs(r.qacc))))
       for i in range(ns):
         a, n = int(mjm.sensor_adr[i]), int(mjm.sensor_dim[i])
